@@ -1,6 +1,6 @@
 (* C18 — proof scripts *)
 From Coq Require Import List ZArith NArith QArith Bool Lia.
-Require Import QV.C18.Model QV.C18.Spec QV.C18.Proofs_alist QV.C18.Proofs_route QV.C18.Proofs_inv.
+Require Import QV.C18.Model QV.C18.Spec QV.C18.Proofs_alist QV.C18.Proofs_route QV.C18.Proofs_inv QV.C18.Proofs_dacroute QV.C18.Proofs_dacinv.
 Import ListNotations.
 
 (* a call that raises anything but ProgramOverwriteException leaves every object as it was *)
@@ -133,3 +133,62 @@ Lemma guard_example :
   /\ keys (regs (run rewire_dims init_state guard_example_history)) = [1%N]
   /\ keys (a_progs (awg_of (run rewire_dims init_state guard_example_history) 1%N)) = [1%N].
 Proof. vm_compute. auto. Qed.
+
+(* ---- corollaries of the acquisition-device side ------------------------------------------------------------------- *)
+
+
+Lemma inv_dac_full dm h :
+  guard_C18_rewire dm init_state h = true -> inv_dac (run dm init_state h).
+Proof. intros G. exact (inv_dac_run_history dm h init_state inv_dac_init G). Qed.
+
+Lemma inv_dac_gone st n d : inv_dac st -> lookup n (regs st) = None -> dac_gone n (dac_of st d) = true.
+Proof.
+  intros [_ [Hex _]] L. specialize (Hex d). apply dac_exact_iff in Hex as [_ [B _]].
+  unfold dac_gone, has_key. destruct (lookup n (d_wins (dac_of st d))) as [w|] eqn:E; auto.
+  destruct (B _ _ (lookup_In _ _ _ E)) as [r [Lr _]]. congruence.
+Qed.
+
+Lemma removed_gone_dac dm h name d :
+  guard_C18_rewire dm init_state h = true ->
+  dac_gone name (dac_of (fst (remove_program (run dm init_state h) name)) d) = true.
+Proof.
+  intros G. pose proof (inv_dac_full dm h G) as Hinv.
+  destruct (remove_program (run dm init_state h) name) as [st' e] eqn:R. cbn.
+  pose proof (inv_dac_remove _ _ _ _ Hinv R) as Hinv'.
+  apply inv_dac_gone; auto.
+  unfold remove_program in R. destruct (lookup name (regs (run dm init_state h))) as [r|] eqn:L.
+  - inversion R; subst. cbn. rewrite lookup_remove, N.eqb_refl. auto.
+  - inversion R; subst. auto.
+Qed.
+
+Lemma cleared_empty_dac dm h d :
+  guard_C18_rewire dm init_state h = true ->
+  d_wins (dac_of (fst (clear_programs (run dm init_state h))) d) = [].
+Proof.
+  intros G. pose proof (inv_dac_full dm h G) as Hinv.
+  destruct (clear_programs (run dm init_state h)) as [st' e] eqn:R. cbn.
+  pose proof (inv_dac_clear _ _ _ Hinv R) as Hinv'.
+  destruct (d_wins (dac_of st' d)) as [|[n w] l] eqn:P; auto.
+  assert (lookup n (regs st') = None) as L by (unfold clear_programs in R; inversion R; subst; auto).
+  pose proof (inv_dac_gone st' n d Hinv' L) as Gn. unfold dac_gone, has_key in Gn. rewrite P in Gn.
+  cbn in Gn. rewrite N.eqb_refl in Gn. discriminate.
+Qed.
+
+Lemma arm_post_dac dm h name st' :
+  guard_C18_rewire dm init_state h = true ->
+  arm_program (run dm init_state h) name = (st', None) ->
+  exists r, lookup name (regs st') = Some r
+            /\ forall d, dac_arm_post (mmap st') name (r_meas r) d (dac_of st' d) = true.
+Proof.
+  intros G H. pose proof (inv_dac_full dm h G) as Hinv. set (st := run dm init_state h) in *.
+  unfold arm_program in H. destruct (lookup name (regs st)) as [r|] eqn:L; [|discriminate].
+  inversion H; subst st'; clear H. exists r. split; auto. intros d.
+  destruct Hinv as [_ [_ [Hrec _]]].
+  set (g := fun (_ : N) (v : dac_st) => {| d_wins := d_wins v; d_armed := Some name |}).
+  assert (dac_of (arm_devices st name r) d = if memN d (r_dacs r) then g d (dac_of st d) else dac_of st d) as Hpt.
+  { unfold arm_devices. cbn.
+    pose proof (fold_upd_pointwise g (fun _ => false) (r_dacs r) (fun _ _ => eq_refl) (dac_of st) d) as P.
+    cbn in P. rewrite andb_true_r in P. exact P. }
+  unfold dac_arm_post. rewrite Hpt. change (mmap (arm_devices st name r)) with (mmap st).
+  rewrite <- (Hrec _ _ L d). destruct (memN d (r_dacs r)); auto. cbn. apply N.eqb_refl.
+Qed.
